@@ -4,6 +4,7 @@ CONSTANTS
   MaxOps = 2
   MaxCrashes = 1
   TxPerOp = 1
+  ChunkMax = 0
   DurableCommit = TRUE
 INIT MCInit
 NEXT MCNext
